@@ -435,4 +435,197 @@ Section WithParseIP.
       + inversion H2; subst. lia.
   Qed.
 
+  (* ------------------------------------------------------------------ *)
+  (* C. concurrent callers: every interleaving of the atomic actions      *)
+
+  Lemma nth_error_upd_same {A} i (x : A) l : (i < length l)%nat -> nth_error (upd i x l) i = Some x.
+  Proof.
+    revert i. induction l as [|y l IH]; intros [|i] H; simpl in *; try lia; [reflexivity|].
+    apply IH. lia.
+  Qed.
+
+  Lemma nth_error_upd_other {A} i j (x : A) l : i <> j -> nth_error (upd i x l) j = nth_error l j.
+  Proof.
+    revert i j. induction l as [|y l IH]; intros [|i] [|j] H; simpl; try reflexivity; try congruence.
+    apply IH. congruence.
+  Qed.
+
+  Lemma nth_error_upd {A} i j (x : A) l p :
+    nth_error (upd i x l) j = Some p ->
+    (i = j /\ p = x) \/ (i <> j /\ nth_error l j = Some p).
+  Proof.
+    intros H. destruct (Nat.eq_dec i j) as [->|Hn].
+    - left. split; [reflexivity|].
+      assert (Hl : (j < length l)%nat).
+      { destruct (Nat.lt_ge_cases j (length l)) as [Hl|Hl]; [assumption|].
+        exfalso. clear -H Hl. revert j H Hl. induction l as [|y l IH]; intros [|j] H Hl; simpl in *; try discriminate; try lia.
+        apply (IH j); [assumption|lia]. }
+      rewrite nth_error_upd_same in H by assumption. congruence.
+    - right. split; [assumption|]. rewrite nth_error_upd_other in H by assumption. assumption.
+  Qed.
+
+  Lemma Forall2_upd {A B} (R : A -> B -> Prop) l1 l2 i a x :
+    Forall2 R l1 l2 -> nth_error l1 i = Some a -> R a x -> Forall2 R l1 (upd i x l2).
+  Proof.
+    intros H. revert i. induction H as [|a0 b0 l1 l2 Hab H IH]; intros [|i] Hn Hr; simpl in *; try discriminate.
+    - inversion Hn; subst. constructor; assumption.
+    - constructor; [assumption|]. apply IH; assumption.
+  Qed.
+
+  Lemma Forall2_nth_r {A B} (R : A -> B -> Prop) l1 l2 i b :
+    Forall2 R l1 l2 -> nth_error l2 i = Some b -> exists a, nth_error l1 i = Some a /\ R a b.
+  Proof.
+    intros H. revert i. induction H as [|a0 b0 l1 l2 Hab H IH]; intros [|i] Hn; simpl in *; try discriminate.
+    - inversion Hn; subst. exists a0. auto.
+    - apply IH. assumption.
+  Qed.
+
+  Lemma Forall2_nth_l {A B} (R : A -> B -> Prop) l1 l2 i a :
+    Forall2 R l1 l2 -> nth_error l1 i = Some a -> exists b, nth_error l2 i = Some b /\ R a b.
+  Proof.
+    intros H. revert i. induction H as [|a0 b0 l1 l2 Hab H IH]; intros [|i] Hn; simpl in *; try discriminate.
+    - inversion Hn; subst. exists b0. auto.
+    - apply IH. assumption.
+  Qed.
+
+  Lemma Forall2_impl {A B} (R R' : A -> B -> Prop) l1 l2 :
+    (forall a b, R a b -> R' a b) -> Forall2 R l1 l2 -> Forall2 R' l1 l2.
+  Proof. intros Hi H. induction H; constructor; auto. Qed.
+
+  (* what a caller for target [hp] may hold at each program point *)
+  Definition thread_ok (now next : Z) (hp : str) (p : pc) : Prop :=
+    match p with
+    | PStart hp' => hp' = hp
+    | PDelete h => exists port, split_host_port hp = Some (h, port)
+    | PCreate h => exists port, split_host_port hp = Some (h, port)
+    | PSet h c => (exists port, split_host_port hp = Some (h, port)) /\ entry_ok now next h c
+    | PDone (Ok c) t =>
+        (exists h port, split_host_port hp = Some (h, port) /\ c_san c = san_of h) /\
+        valid_at t c /\ t <= now /\ c_na c = c_nb c + LIFETIME
+    | PDone Err t =>
+        split_host_port hp = None \/ exists h port, split_host_port hp = Some (h, port) /\ creatable h = false
+    | PDone Panic _ => False
+    end.
+
+  Lemma thread_ok_mono now next now' next' hp p :
+    now <= now' -> next <= next' -> thread_ok now next hp p -> thread_ok now' next' hp p.
+  Proof.
+    intros H1 H2. destruct p as [hp'|h|h|h c|[c| |] t]; simpl; auto.
+    - intros [A B]. split; [assumption|]. eapply entry_ok_mono; eauto.
+    - intros (A & B & C & D). repeat split; auto; try apply B; lia.
+  Qed.
+
+  Lemma pc_step_ok now0 now n m hp p p' m' n' :
+    cache_ok now0 n m -> now0 <= now -> thread_ok now0 n hp p ->
+    pc_step now p m n = (p', m', n') ->
+    cache_ok now n' m' /\ n <= n' /\ thread_ok now n' hp p'.
+  Proof.
+    intros Hm Hnow Ht Hs.
+    assert (Hm' : cache_ok now n m) by (eapply cache_ok_mono; [| |exact Hm]; lia).
+    destruct p as [hp'|h|h|h c|r t]; simpl in Hs, Ht.
+    - subst hp'. destruct (split_host_port hp) as [[h port]|] eqn:Es.
+      + destruct (lookup h m) as [c|] eqn:El.
+        * destruct (expired now c) eqn:Ee; inversion Hs; subst.
+          -- split; [assumption|]. split; [lia|]. simpl. rewrite Es. exists port. reflexivity.
+          -- split; [assumption|]. split; [lia|]. simpl.
+             pose proof (Hm' h c El) as He. rewrite Es.
+             split; [exists h, port; split; [reflexivity|apply He]|].
+             split; [eapply not_expired_valid; eauto|]. split; [lia|apply He].
+        * inversion Hs; subst. split; [assumption|]. split; [lia|]. simpl. rewrite Es. exists port. reflexivity.
+      + inversion Hs; subst. split; [assumption|]. split; [lia|]. simpl. left. assumption.
+    - inversion Hs; subst. split; [apply cache_ok_remove; assumption|]. split; [lia|]. exact Ht.
+    - destruct (creatable h) eqn:Ec; inversion Hs; subst.
+      + split; [eapply cache_ok_mono; [| |exact Hm']; lia|]. split; [lia|]. simpl.
+        split; [assumption|]. apply mk_cert_entry_ok. assumption.
+      + split; [assumption|]. split; [lia|]. simpl. right.
+        destruct Ht as [port Hp]. exists h, port. auto.
+    - inversion Hs; subst. destruct Ht as [Hp He].
+      assert (He' : entry_ok now n' h c) by (eapply entry_ok_mono; [| |exact He]; lia).
+      split; [apply cache_ok_set; assumption|]. split; [lia|]. simpl.
+      destruct Hp as [port Hp]. destruct He as (E1 & E2 & E3 & E4 & E5).
+      split; [exists h, port; auto|]. unfold valid_at, LIFETIME in *. repeat split; lia.
+    - inversion Hs; subst. split; [assumption|]. split; [lia|].
+      apply (thread_ok_mono now0 n' now n'); [lia|lia|exact Ht].
+  Qed.
+
+  Definition linv (hps : list str) (st : lstate) : Prop :=
+    cache_ok (l_now st) (l_next st) (l_cache st) /\
+    Forall2 (thread_ok (l_now st) (l_next st)) hps (l_threads st).
+
+  Lemma lstep_inv hps st a :
+    linv hps st -> linv hps (lstep st a) /\ l_now st <= l_now (lstep st a) /\ l_next st <= l_next (lstep st a).
+  Proof.
+    intros [Hc Ht]. destruct a as [i dt]. unfold lstep.
+    set (now := l_now st + Z.max 0 dt).
+    assert (Hnow : l_now st <= now) by (unfold now; lia).
+    destruct (nth_error (l_threads st) i) as [p|] eqn:En.
+    - destruct (pc_step now p (l_cache st) (l_next st)) as [[p' m'] n'] eqn:Es.
+      unfold linv. cbn [l_now l_next l_cache l_threads].
+      destruct (Forall2_nth_r _ _ _ _ _ Ht En) as (hp & Hhp & Hp).
+      destruct (pc_step_ok _ _ _ _ _ _ _ _ _ Hc Hnow Hp Es) as (A & B & C).
+      split; [|split; [assumption|lia]].
+      split; [assumption|].
+      apply Forall2_upd with (a := hp); [|assumption|assumption].
+      eapply Forall2_impl; [|exact Ht]. intros a0 b0 H0.
+      apply (thread_ok_mono (l_now st) (l_next st)); [lia|lia|exact H0].
+    - unfold linv. cbn [l_now l_next l_cache l_threads]. split; [|split; [assumption|lia]].
+      split; [eapply cache_ok_mono; [| |exact Hc]; lia|].
+      eapply Forall2_impl; [|exact Ht]. intros a0 b0 H0.
+      apply (thread_ok_mono (l_now st) (l_next st)); [lia|lia|exact H0].
+  Qed.
+
+  Lemma lrun_inv hps sched st :
+    linv hps st -> linv hps (lrun sched st) /\ l_now st <= l_now (lrun sched st).
+  Proof.
+    revert st. induction sched as [|a sched IH]; intros st H; simpl.
+    - split; [assumption|lia].
+    - destruct (lstep_inv hps st a H) as (A & B & _). destruct (IH _ A) as (A' & B'). split; [assumption|lia].
+  Qed.
+
+  Lemma linit_inv s hps : state_ok s -> linv hps (linit s hps).
+  Proof.
+    intros H. split; [exact H|]. simpl. induction hps as [|hp hps IH]; simpl; constructor; auto.
+    reflexivity.
+  Qed.
+
+  (* Every certificate any caller is handed, under every interleaving, names its own host and
+     was valid when it was chosen. *)
+  Theorem concurrent_returned ops hps sched i hp c t :
+    let st := lrun sched (linit (run ops init) hps) in
+    nth_error hps i = Some hp ->
+    nth_error (l_threads st) i = Some (PDone (Ok c) t) ->
+    (exists h port, split_host_port hp = Some (h, port) /\
+                    (hp = h ++ COLON :: port \/ hp = LBRACK :: h ++ RBRACK :: COLON :: port) /\
+                    c_san c = san_of h) /\
+    valid_at t c /\ s_now (run ops init) <= l_now st /\ t <= l_now st /\ c_na c = c_nb c + LIFETIME.
+  Proof.
+    intros st Hhp Hp.
+    destruct (run_ok ops init init_ok) as (Hok & _).
+    destruct (lrun_inv hps sched _ (linit_inv _ hps Hok)) as ([_ Ht] & Hnow). fold st in Ht, Hnow.
+    destruct (Forall2_nth_r _ _ _ _ _ Ht Hp) as (hp' & Hhp' & Hok').
+    rewrite Hhp in Hhp'. inversion Hhp'; subst hp'. simpl in Hok'.
+    destruct Hok' as ((h & port & Hs & Hn) & Hv & Hle & Hl).
+    split; [exists h, port; split; [assumption|split; [apply split_host_port_shape; assumption|assumption]]|].
+    simpl in Hnow. auto.
+  Qed.
+
+  (* no caller ever panics, and a caller is refused only for a target SplitHostPort rejects
+     or a name x509 cannot encode *)
+  Theorem concurrent_refusals ops hps sched i hp r t :
+    let st := lrun sched (linit (run ops init) hps) in
+    nth_error hps i = Some hp ->
+    nth_error (l_threads st) i = Some (PDone r t) ->
+    match r with
+    | Ok _ => True
+    | Err => split_host_port hp = None \/ exists h port, split_host_port hp = Some (h, port) /\ creatable h = false
+    | Panic => False
+    end.
+  Proof.
+    intros st Hhp Hp.
+    destruct (run_ok ops init init_ok) as (Hok & _).
+    destruct (lrun_inv hps sched _ (linit_inv _ hps Hok)) as ([_ Ht] & _). fold st in Ht.
+    destruct (Forall2_nth_r _ _ _ _ _ Ht Hp) as (hp' & Hhp' & Hok').
+    rewrite Hhp in Hhp'. inversion Hhp'; subst hp'. destruct r; simpl in *; auto.
+  Qed.
+
 End WithParseIP.
